@@ -13,6 +13,8 @@ class ClassDecl:
     fields: Dict[str, str] = field(default_factory=dict)     # field -> sort string
     inv: List[str] = field(default_factory=list)              # class invariant clauses over `self`
     supers: List[str] = field(default_factory=list)
+    props: Dict[str, Any] = field(default_factory=dict)       # @property name -> (relpath, qualname): inlined real code
+    inline: Dict[str, Any] = field(default_factory=dict)      # small helper method -> (relpath, qualname): inlined
 
 
 @dataclass
@@ -38,6 +40,7 @@ class FnContract:
     consts: Dict[str, Any] = field(default_factory=dict)
     ghost: Dict[str, str] = field(default_factory=dict)       # ghost inputs (universally quantified)
     ghost_effects: Dict[str, int] = field(default_factory=dict)
+    record_as: Optional[str] = None   # ghost call log name: callers' postconditions may use ncalls()/called_with()
     use_wf: bool = True            # class invariant is pre and post
     wf_pre: bool = True
     wf_post: bool = True
@@ -129,6 +132,32 @@ class Registry:
                 return cd.fields[fld]
             stack.extend(cd.supers)
         return None
+
+    def class_prop(self, cls, name):
+        for c in self._mro(cls):
+            cd = self.classes.get(c)
+            if cd and name in cd.props:
+                return cd.props[name]
+        return None
+
+    def class_inline(self, cls, name):
+        for c in self._mro(cls):
+            cd = self.classes.get(c)
+            if cd and name in cd.inline:
+                return cd.inline[name]
+        return None
+
+    def _mro(self, cls):
+        out, stack = [], [cls]
+        while stack:
+            c = stack.pop(0)
+            if c is None or c in out:
+                continue
+            out.append(c)
+            cd = self.classes.get(c)
+            if cd:
+                stack.extend(cd.supers)
+        return out
 
     def class_supers(self, cls: str):
         out, stack = set(), [cls]
